@@ -21,6 +21,9 @@ fn main() {
         let b: u64 = args.get(2).and_then(|s| s.parse().ok()).unwrap_or(0);
         exit(mc::nopanic::child_days(a, b));
     }
+    if args[0] == "--c11-init" {
+        exit(mc::frag::child_init(args.get(1).map(|s| s.as_str()).unwrap_or("")));
+    }
     if args[0] == "--c16-huge" {
         let e: i64 = args.get(1).and_then(|s| s.parse().ok()).unwrap_or(0);
         exit(mc::widths::child_huge(e, args.get(2).map(|s| s == "1").unwrap_or(false), args.get(3).and_then(|s| s.parse().ok()).unwrap_or(0)));
